@@ -268,6 +268,10 @@ pub fn eval(e: &Expr, s: &MStore) -> Ev {
     Expr::Call(f, args) => {
       let mut vals = vec![];
       for a in args { match eval(a, s) { Ev::Val(v) => vals.push(v), other => return other } }
+      if f == "idf" {
+        // a match-arm function whose only arm hands back its argument
+        return match vals.as_slice() { [v @ SV::F64(_)] => Ev::Val(v.clone()), [_] => Ev::Unsure, _ => Ev::Fail("function-arity".into()) };
+      }
       if f == "mutm" {
         // writes 99 into element 1 of a mutable copy of its f64 matrix argument and returns the copy
         return match vals.as_slice() {
@@ -296,6 +300,14 @@ pub fn eval(e: &Expr, s: &MStore) -> Ev {
       for e in els { match e { BuiltElem::Lit(v) => vals.push(v.clone()), BuiltElem::Var(n) => match var(n) { Ok(v) => vals.push(v.clone()), Err(e) => return e } } }
       match kind.as_str() {
         "tuple" => Ev::Val(SV::Tuple(vals)),
+        "nested-tuple" => { if vals.len() < 3 { return Ev::Unsure; } let inner = SV::Tuple(vec![vals[0].clone(), vals[1].clone()]); let mut outer = vec![inner]; outer.extend(vals[2..].iter().cloned()); Ev::Val(SV::Tuple(outer)) }
+        "set" => {
+          if vals.is_empty() || !vals.iter().all(|v| matches!(v, SV::F64(_))) { return Ev::Unsure; }
+          let mut els: Vec<SV> = vec![]; for v in &vals { if !els.contains(v) { els.push(v.clone()); } }
+          els.sort();
+          Ev::Val(SV::Set("f64".into(), els))
+        }
+        "match-id" => match vals.first() { Some(v) => Ev::Val(v.clone()), None => Ev::Unsure },
         "record" => if vals.iter().all(|v| v.is_scalar()) { Ev::Val(SV::Record(vals.iter().enumerate().map(|(i, v)| (["a", "b", "c", "d"][i % 4].to_string(), v.kind_tag(), v.clone())).collect())) } else { Ev::Unsure },
         "table" => {
           if vals.len() < 2 || vals.len() % 2 != 0 || !vals.iter().all(|v| matches!(v, SV::F64(_))) { return Ev::Unsure; }
